@@ -181,16 +181,17 @@ def norm_text(s):
 
 
 def walk_local(fn):
-    """Walk a function body without descending into nested defs/lambdas/classes."""
+    """Walk a function body without descending into nested defs/lambdas/classes
+    (the nested def statement itself is yielded, its body is not)."""
     stack = list(reversed(fn.body)) if hasattr(fn, 'body') and isinstance(
         fn.body, list) else [fn]
     while stack:
         n = stack.pop()
         yield n
+        if isinstance(n, (ast.FunctionDef, ast.AsyncFunctionDef,
+                          ast.ClassDef, ast.Lambda)):
+            continue
         for ch in reversed(list(ast.iter_child_nodes(n))):
-            if isinstance(ch, (ast.FunctionDef, ast.AsyncFunctionDef,
-                               ast.ClassDef, ast.Lambda)):
-                continue
             stack.append(ch)
 
 
